@@ -3,6 +3,7 @@ From RJ Require Import Base.Prelude Base.OrderedPlan Model.Settings Model.Core M
   Spec.PlanSpec Spec.Mirror Proofs.FsProofs Proofs.ExecProofs Proofs.PathsProofs Proofs.ConfineProofs Proofs.MirrorProofs
   Proofs.QuietProofs Proofs.ConfinedMain Proofs.ConfineAll.
 From RJ Require Model.Walker Proofs.WalkBridge Proofs.WalkedSync.
+From RJ Require Import Proofs.Utf8Join.
 
 (* A symlink is a leaf of every listing: nothing below a symlink is visible, whatever it points at. *)
 Theorem C12_leaf : forall incl f p q t k,
@@ -72,8 +73,14 @@ Theorem C12_walked_never_through : forall now_z incl normalize chunker cfg S D a
   no_through (d_events (r_dest (sync_one now_z normalize chunker cfg S D ans bits ls ld ft))).
 Proof. exact WalkedSync.walked_sync_never_through. Qed.
 
+(* The text a Unix destination doer writes for a well-formed source text is well-formed UTF-8 again (so it is in the
+   domain of the theorems above when the destination is synced onwards). *)
+Theorem C12_written_text_well_formed : forall t, utf8_valid t = true -> utf8_valid (denormalize Unix (normalize_unix t)) = true.
+Proof. exact written_text_valid. Qed.
+
 Print Assumptions C12_leaf.
 Print Assumptions C12_never_through_in_any_run.
 Print Assumptions C12_recreate_iff.
 Print Assumptions C12_never_through.
 Print Assumptions C12_walked_never_through.
+Print Assumptions C12_written_text_well_formed.
